@@ -84,6 +84,27 @@ def register(reg):
         eng.heap_write(st, self_v, "CI.idle", VBool(False))
         return NONE
 
+    # Response.aread/read and Response.aclose/close on a response obtained from a connection: reading pulls the
+    # body from the connection (any documented failure), closing gives the exchange back (assumed not to raise;
+    # it does NOT close the connection: whether the connection survives is the connection's business)
+    @reg.method(RESPONSE, "aread", "read")
+    def resp_read(it, st, self_v, args, kwargs, node):
+        eng = it.eng
+        it.emit(st, "resp.read", node, response=self_v, shield=st.shield)
+        it.suspend(st, f"resp.read@{node.lineno}")
+        raises = [r for r in CONN_RAISES if not r.endswith("ConnectionNotAvailable")]
+        names = ["body"] + [r.rsplit(".", 1)[-1] for r in raises]
+        k = eng.choose(st, len(names), f"resp.read@{node.lineno}", names)
+        if k > 0:
+            eng.raise_(st, raises[k - 1], tag={"from": "resp.read"})
+        return eng.fresh(st, "bytes", "body")
+
+    @reg.method(RESPONSE, "aclose", "close")
+    def resp_close(it, st, self_v, args, kwargs, node):
+        it.emit(st, "resp.close", node, response=self_v, shield=st.shield)
+        it.suspend(st, f"resp.close@{node.lineno}")
+        return NONE
+
     @reg.method(CI, "handle_async_request", "handle_request")
     def handle(it, st, self_v, args, kwargs, node):
         eng = it.eng
